@@ -529,6 +529,27 @@ impl Scale {
     pub fn get_precision(&self, d: &Decimal) -> usize {
         cmp::max(cmp::min(d.scale(), self.max), self.min) as usize
     }
+
+    /// Format decimal with exactly `prec` decimals (zero padded or truncated, no rounding).
+    ///
+    /// The result is the same as with `format!("{d:.prec$}")`, but this doesn't panic
+    /// when the zero padded text is longer than the internal buffer of `Decimal`'s
+    /// formatter (32 characters), e.g. `1000` with 28 decimals.
+    pub fn format_with_precision(d: &Decimal, prec: usize) -> String {
+        let d_scale = d.scale() as usize;
+        if prec < d_scale {
+            // truncated text is shorter than the plain text, which always fits
+            return format!("{d:.prec$}");
+        }
+        let mut txt = d.to_string();
+        if d_scale < prec {
+            if d_scale == 0 {
+                txt.push('.');
+            }
+            txt.push_str(&"0".repeat(prec - d_scale));
+        }
+        txt
+    }
 }
 
 impl Default for Scale {
